@@ -5,10 +5,11 @@
    smallest scheduled time, due (<= the next event time / the drain bound), run with the clock at max(clock, its time);
    the scheduling phase is left for the events of dt only when no job is due at or before dt; the final drain bound
    is the latest pending job.  Proved over whole runs: no job is lost or run twice (pending + executed = initial + scheduled, as multisets) and
-   the clocks of successive executions never decrease.  C13_partial: "every job scheduled before the drain began has run when
-   run() returns" is validated by the correspondence check and the monitor (all insertion orders of up to 6 distinct times are swept exhaustively). *)
+   the clocks of successive executions never decrease.  When run() has returned every job still pending is later than the drain
+   bound, i.e. later than the latest job pending when the sources first ran dry (DrainProofs.v).  The tie to the code is the
+   correspondence check and the monitor (all insertion orders of up to 6 distinct times are swept exhaustively). *)
 From Coq Require Import ZArith List.
-From Basana Require Import Dispatch.Backtest Dispatch.BacktestProofs Dispatch.MuxProofs Dispatch.RunProofs Dispatch.OnceProofs.
+From Basana Require Import Dispatch.Backtest Dispatch.BacktestProofs Dispatch.MuxProofs Dispatch.RunProofs Dispatch.OnceProofs Dispatch.DrainProofs.
 Import ListNotations.
 Open Scope Z_scope.
 
@@ -51,6 +52,18 @@ Theorem C13_jobs_on_time_over_the_whole_run : forall beh_ev beh_job srcs jobs or
   sorted_le (map clk (d_trace s)) /\ forall it, In it (d_trace s) -> due it <= clk it.
 Proof. exact run_clock_monotone. Qed.
 Print Assumptions C13_jobs_on_time_over_the_whole_run.
+
+(* whole run: when run() has returned, every job still pending is later than the drain bound; if no job was pending
+   when the sources ran dry, none is left *)
+Theorem C13_returned_run_left_only_later_jobs : forall beh_ev beh_job srcs jobs oracle fuel,
+  let s := fst (run beh_ev beh_job fuel (init_d srcs jobs) oracle) in
+  d_pc s = PDone ->
+  match d_drain s with
+  | Some d => forall w j, In (w, j) (d_sched s) -> d < w
+  | None => d_sched s = []
+  end.
+Proof. exact returned_run_left_only_later_jobs. Qed.
+Print Assumptions C13_returned_run_left_only_later_jobs.
 
 (* non-vacuity: the witness of the repaired defect D1 -- jobs inserted at 10, 50, 20 after the last event all run, in order *)
 Example C13_d1_witness :
